@@ -515,15 +515,14 @@ func (r *FileRestorer) restoreIdent(n *dst.Ident, parentName, parentField, paren
 	out := &ast.SelectorExpr{}
 	r.Ast.Nodes[n] = out
 	r.Dst.Nodes[out] = n
-	r.Dst.Nodes[out.Sel] = n
-	r.Dst.Nodes[out.X] = n
 	r.applySpace(n, "Before", n.Decs.Before)
 
 	// Decoration: Start
 	r.applyDecorations(out, "Start", n.Decs.Start, false)
 
 	// Node: X
-	out.X = r.restoreNode(dst.NewIdent(name), "SelectorExpr", "X", "Expr", allowDuplicate).(ast.Expr)
+	x := dst.NewIdent(name)
+	out.X = r.restoreNode(x, "SelectorExpr", "X", "Expr", allowDuplicate).(ast.Expr)
 
 	// Token: Period
 	r.cursor += token.Pos(len(token.PERIOD.String()))
@@ -532,7 +531,14 @@ func (r *FileRestorer) restoreIdent(n *dst.Ident, parentName, parentField, paren
 	r.applyDecorations(out, "X", n.Decs.X, false)
 
 	// Node: Sel
-	out.Sel = r.restoreNode(dst.NewIdent(n.Name), "SelectorExpr", "Sel", "Ident", allowDuplicate).(*ast.Ident)
+	sel := dst.NewIdent(n.Name)
+	out.Sel = r.restoreNode(sel, "SelectorExpr", "Sel", "Ident", allowDuplicate).(*ast.Ident)
+
+	// X and Sel are restored from temporary idents. Both map back to the original ident.
+	delete(r.Ast.Nodes, x)
+	delete(r.Ast.Nodes, sel)
+	r.Dst.Nodes[out.X] = n
+	r.Dst.Nodes[out.Sel] = n
 
 	// Decoration: End
 	r.applyDecorations(out, "End", n.Decs.End, true)
